@@ -16,7 +16,7 @@
 From Coq Require Import NArith List Bool Arith Lia.
 From CL Require Import Base.Sx Base.Res Base.Str Regex.Rx Model.Entry Model.Parse
   Model.ParseFormats Generated.RxParser Generated.RxC02 Generated.C02Facts Model.Unescape
-  Proofs.C02License Proofs.UnescapeProofs Proofs.C02Po Proofs.C02Props.
+  Proofs.C02License Proofs.UnescapeProofs Proofs.C02Po Proofs.C02Props Proofs.C02Roundtrip.
 Import ListNotations.
 
 (* ---- (a) the License rule -------------------------------------------------------------
@@ -136,3 +136,75 @@ Example C02_unescape_properties_example :
   render_toks ts = [97; 92; 117; 52; 49; 120; 92; 110; 92; 10; 32; 32; 98; 92; 113; 92; 92]%N /\
   props_val (render_toks ts) = Ok [97; 65; 120; 10; 98; 113; 92]%N.
 Proof. vm_compute. repeat split. Qed.
+
+(* ---- (d) one record ------------------------------------------------------------------------
+   A file  key sep value newline  with
+     legal_key    non-empty, first character none of # ! blank tab CR LF, no = : LF in it,
+                  last character not a blank or tab
+     legal_sep    blanks-or-tabs, then : or =, then blanks-or-tabs
+     legal_raw1   a value on ONE line: no LF or CR, neither end is a blank or tab, the last
+                  character is not a backslash
+   parses to exactly one entity with that key span and that value span, followed by the
+   newline as whitespace; the key text and raw_val are the printed ones.
+   PARTIAL: values with line continuations and values ending in an (escaped) backslash
+   are not covered by this theorem; neither are several records, comments and junk (the
+   block theorem below).  Those clauses are checked by execution only
+   (harness/props/c02.py, printed files against the implementation). *)
+Theorem C02_roundtrip_properties_partial : forall (key b1 : str) (sc : N) (b2 raw : str),
+  legal_key key = true -> legal_sep b1 sc b2 = true -> legal_raw1 raw = true ->
+  let sep := b1 ++ sc :: b2 in
+  let s := key ++ sep ++ raw ++ [10%N] in
+  let a := length key in
+  let b := a + length sep in
+  let n := b + length raw in
+  walk_properties s =
+    Ok [mkentry KEntity (0, n) (Some (0, a)) (Some (b, n)) None None; mk_white (n, S n)] /\
+  slice s 0 a = key /\ slice s b n = raw.
+Proof. exact roundtrip_one. Qed.
+
+(* with (c): key, raw_val and val of the recovered entity, for a one-line value rendered
+   from tokens ([html] is the DTD oracle, unused for properties) *)
+Theorem C02_record_view_properties_partial :
+  forall (html : str -> str) (key b1 : str) (sc : N) (b2 : str) (ts : list ptok),
+  legal_key key = true -> legal_sep b1 sc b2 = true ->
+  toks_ok ts = true -> legal_raw1 (render_toks ts) = true ->
+  let raw := render_toks ts in
+  let sep := b1 ++ sc :: b2 in
+  views html VProps (key ++ sep ++ raw ++ [10%N]) =
+  Ok [mkview KEntity (key ++ sep ++ raw) (KStr key) (Some raw) (Ok (Some (meaning_toks ts))) None;
+      mkview KWhitespace [10%N] (KStr [10%N]) (Some [10%N]) (Ok (Some [10%N])) None].
+Proof. exact record_view. Qed.
+
+(*  "a b = x\u41\ty"  *)
+Example C02_roundtrip_properties_example :
+  let key := [97; 32; 98]%N in
+  let ts := [TPlain 120; TUni [52; 49]; TSingle 116; TPlain 121]%N in
+  legal_key key = true /\ legal_sep [32%N] 61%N [32%N] = true /\ toks_ok ts = true /\
+  legal_raw1 (render_toks ts) = true /\
+  views (fun x => x) VProps (key ++ ([32%N] ++ 61%N :: [32%N]) ++ render_toks ts ++ [10%N]) =
+  Ok [mkview KEntity [97; 32; 98; 32; 61; 32; 120; 92; 117; 52; 49; 92; 116; 121]%N
+             (KStr [97; 32; 98]%N) (Some [120; 92; 117; 52; 49; 92; 116; 121]%N)
+             (Ok (Some [120; 65; 9; 121]%N)) None;
+      mkview KWhitespace [10%N] (KStr [10%N]) (Some [10%N]) (Ok (Some [10%N])) None].
+Proof. vm_compute. repeat split. Qed.
+
+(* ---- stated, NOT PROVED (DESIGN.md section 4, C02) -------------------------------------------
+   blocks_properties :
+     forall bs, Forall legal_block bs -> adjacent_ok bs ->
+       walk_properties (concat (map text bs)) = Ok (entries_of bs)
+   where a block is an entity text (optionally with its attached comment and the single
+   newline between), a standalone comment, a whitespace run, or a maximal junk region
+   (inert garbage lines with the blank lines that follow them), and adjacent_ok is the local
+   separation condition (entity followed by a whitespace block starting with a newline or by
+   end of file; standalone comment followed by a whitespace block with two newlines or by
+   end of file; no two adjacent whitespace blocks; junk newline-terminated and followed by an
+   entity or comment block or end of file; the first block not an entity whose comment
+   contains License -- that case is C02_license_properties).
+   C02_roundtrip_<fmt> :
+     forall rs lay, NoDup (map key rs) -> legal rs -> legal_layout lay ->
+       entities (walk_<fmt> (print lay rs)) = map (fun r => (key r, raw r, attached_comment lay r)) rs
+       /\ junk (walk_<fmt> (print lay rs)) = garbage lay
+   Proved of them: the one-record, one-line case above for properties (the step lemmas for
+   the comment, whitespace, key, escaped-end and trailing-whitespace expressions are in
+   Proofs/C02Roundtrip.v); nothing for dtd, ini, inc, po.  The executable counterpart of
+   both statements is the oracle of harness/props/c02.py for all seven formats. *)
